@@ -115,6 +115,21 @@ def family():
     add("conditional(f<g, v0, 1.0)   (affine)", uflmodel.m_conditional(c, v, one), (v,))
     add("conditional(f<g, v0, f*v0)", uflmodel.m_conditional(c, v, P(f, v)), (v,))
     add("conditional(v0<g, f, g)   (argument in the condition)", uflmodel.m_conditional(uflmodel.m_rel("<")(v, g), f, g), (v,))
+    # compound conditions: an argument anywhere inside the condition gates the branch nonlinearly
+    cv = uflmodel.m_rel(">")(v, zero)
+    cf = uflmodel.m_rel(">")(f, zero)
+    for dsc, cond in (
+        ("And(f<g, v0>0)", uflmodel.m_and(c, cv)),
+        ("And(v0>0, f<g)", uflmodel.m_and(cv, c)),
+        ("Or(f<g, v0>0)", uflmodel.m_or(c, cv)),
+        ("Or(v0>0, f<g)", uflmodel.m_or(cv, c)),
+        ("Not(v0>0)", uflmodel.m_not(cv)),
+        ("And(f<g, Not(v0>0))", uflmodel.m_and(c, uflmodel.m_not(cv))),
+        ("And(And(f<g, f>0), v0>0)", uflmodel.m_and(uflmodel.m_and(c, cf), cv)),
+        ("And(f<g, f>0)   (no argument in the condition)", uflmodel.m_and(c, cf)),
+        ("Or(f<g, Not(f>0))   (no argument in the condition)", uflmodel.m_or(c, uflmodel.m_not(cf))),
+    ):
+        add(f"conditional({dsc}, v0, 0)", uflmodel.m_conditional(cond, v, zero), (v,))
     add("as_vector([v0, 0])[i]*F[i]", mult(idx(uflmodel.m_list_tensor(v, zero), i), idx(fv, i)), (v,))
     add("as_vector([v0, 1.0])[i]*F[i]   (affine)", mult(idx(uflmodel.m_list_tensor(v, one), i), idx(fv, i)), (v,))
     add("as_vector([v0, f])[i]*F[i]   (affine)", mult(idx(uflmodel.m_list_tensor(v, f), i), idx(fv, i)), (v,))
